@@ -595,6 +595,7 @@ func genC02(c *Ctx) {
 						}
 					}
 					c.Emit("overstack " + encPos(p) + " " + encMove(m1) + " " + encMove(m2) + " " + encMove(ms[c.R.Intn(len(ms))]))
+					c.Emit("overclone " + encPos(p) + " " + encMove(m1) + " " + encMove(ms[c.R.Intn(len(ms))]))
 					c.Count("overstack")
 				}
 			}
